@@ -87,7 +87,7 @@ def run(pid):
         mkeys = [[1, 7, 7, 0, 9, 0, 3, 3], [1, 7, 7, 0, 9, 0, 3, 4], [2, 7, 7, 0, 9, 0, 3, 3]]
         drift_total = checked_total = 0
         for pl, il, mc in ([(33, 30, 6), (70, 70, 6)] if thorough else [(33, 30, 5)]):
-            consts = {"Vals": "{0, 5}", "PriLimit": pl, "IdxLimit": il, "MaxCalls": mc, "WithGC": "TRUE"}
+            consts = {"Vals": "{0, 5}", "PriLimit": pl, "IdxLimit": il, "MaxCalls": mc, "WithGC": "TRUE", "LowUses": "{0, 101}"}
             r0 = vlib.tlc_must("MCStore", "MCStore_mc.cfg", consts=consts, timeout=3000)
             if r0.violated:
                 raise vlib.Infra("Store.tla (with GC) violates Refines / PredictedPositionsExact / FreedOnce - replay the counter-example first:\n" + r0.out[-2500:])
